@@ -19,6 +19,7 @@ import gen_translate as gt
 from gen_translate import ERRORS, Method, Unsupported, fail
 
 gt.TYPES.setdefault("tuple[Rows, int, int]", "List Row × Nat × Nat")
+gt.TYPES.setdefault("Rows", "List Row × PLit")
 RENAME = {"prefix": "prefix_"}
 ENTRY_ROWS = {("RdfPrefixEntry", "prefix"): "prefixEntry", ("RdfNameEntry", "name"): "nameEntry", ("RdfDatatypeEntry", "datatype"): "dtEntry"}
 LOOKUP_METHODS = {"encode_entry_index", "encode_prefix_term_index", "encode_name_term_index", "encode_datatype_term_index", "encode_term_index"}
@@ -26,7 +27,7 @@ LOOKUP_METHODS = {"encode_entry_index", "encode_prefix_term_index", "encode_name
 REPO = Path(common.REPO)
 OUT = Path(__file__).resolve().parent.parent / "lean" / "JellyGenerated" / "EncGen.lean"
 SRC = "pyjelly/serialize/encode.py"
-METHODS = ["start_row", "end_row", "encode_iri_indices"]
+METHODS = ["start_row", "end_row", "encode_iri_indices", "encode_literal"]
 # attribute name -> field name, per record type reached along a path from self
 FIELDS = {
     "TermEnc": {"names": ("names", "LookupEnc"), "prefixes": ("prefixes", "LookupEnc"), "datatypes": ("datatypes", "LookupEnc"),
@@ -46,9 +47,11 @@ class EncMethod(Method):
     def infer_local_types(self) -> dict[str, str]:
         """Types of the locals, read off their assignments (no table of names: a renamed local must not break the translation)."""
         types: dict[str, str] = {}
-        for p in self.fn.args.args[1:]:
+        for p in [*self.fn.args.args[1:], *self.fn.args.kwonlyargs]:
             ann = ast.unparse(p.annotation) if p.annotation is not None else None
-            types[p.arg] = {"str": "String", "int": "Nat"}.get(ann, "Nat")
+            types[p.arg] = {"str": "String", "int": "Nat", "str | None": "Option String"}.get(ann, "Nat")
+        none_assigned = {node.targets[0].id for node in ast.walk(self.fn) if isinstance(node, ast.Assign) and len(node.targets) == 1
+                         and isinstance(node.targets[0], ast.Name) and isinstance(node.value, ast.Constant) and node.value.value is None}
 
         def ty(v) -> str | None:
             if isinstance(v, ast.List):
@@ -73,11 +76,38 @@ class EncMethod(Method):
                         types[el.id] = "String"
             elif isinstance(tg, ast.Name):
                 t = ty(v)
+                if t == "Nat" and tg.id in none_assigned:
+                    t = "Option Nat"   # a local that is also assigned None
                 if t is not None and not (types.get(tg.id, "").startswith("Option") and t == "Nat"):
                     types[tg.id] = t
+        for node in ast.walk(self.fn):   # annotated locals holding a tuple of rows
+            if isinstance(node, ast.AnnAssign) and isinstance(node.target, ast.Name) and isinstance(node.value, ast.Tuple):
+                types[node.target.id] = "List Row"
         return types
 
+    def params(self):
+        a = self.fn.args
+        if a.vararg or a.kwarg or a.posonlyargs or a.defaults:
+            fail(self.fn, "parameter list")
+        out = []
+        self.msg_params: list[str] = []
+        for p, d in [*((p, None) for p in a.args[1:]), *zip(a.kwonlyargs, a.kw_defaults)]:
+            ann = ast.unparse(p.annotation) if p.annotation is not None else None
+            if ann == "jelly.RdfLiteral":
+                self.msg_params.append(p.arg)
+                continue
+            if ann in ("str", "int") and d is None:
+                out.append((p.arg, {"str": "String", "int": "Nat"}[ann]))
+            elif ann == "str | None" and isinstance(d, ast.Constant) and d.value is None:
+                out.append((p.arg, "Option String"))
+            else:
+                fail(self.fn, f"parameter {p.arg}")
+        self.ptypes = dict(out)
+        return out
+
     def local_type(self, name: str) -> str:
+        if hasattr(self, "ptypes") and name in self.ptypes:
+            return self.ptypes[name]
         if not hasattr(self, "_ltypes"):
             self._ltypes = self.infer_local_types()
             for k, v in list(self._ltypes.items()):
@@ -85,7 +115,15 @@ class EncMethod(Method):
         return self._ltypes.get(name, "Nat")
 
     def assign_local(self, ind: int, name: str, term: str) -> None:
-        super().assign_local(ind, RENAME.get(name, name), term)
+        name = RENAME.get(name, name)
+        ty = self.local_type(name)
+        if ty.startswith("Option") and term != "none" and "encode_entry_index" not in term:
+            term = f"(some {term})"      # a plain value stored in a local that can also hold None
+        if name in self.declared:
+            self.emit(ind, f"{name} := {term}")
+        else:
+            self.declared.add(name)
+            self.emit(ind, f"let mut {name} : {ty} := {term}")
 
     def predeclare_name(self, name: str, first_assignment) -> str | None:
         v = getattr(first_assignment, "value", None)
@@ -97,10 +135,26 @@ class EncMethod(Method):
         return RENAME.get(name, name)
 
     def opt_value(self, e) -> str:
-        """a local known (by the enclosing `is not None` test) to hold a value"""
+        """a local known (by the enclosing `is not None` / truthiness test) to hold a value"""
         if isinstance(e, ast.Name) and self.local_type(RENAME.get(e.id, e.id)).startswith("Option"):
             return f"(← liftE (optGet {RENAME.get(e.id, e.id)}))"
         return self.atom(e)
+
+    def row_of(self, row: ast.Call) -> str:
+        if not (not row.args and len(row.keywords) == 1 and isinstance(row.keywords[0].value, ast.Name) and row.keywords[0].value.id in self.msgs):
+            fail(row, "row")
+        cls_, idt, val = self.msgs[row.keywords[0].value.id]
+        ctor = ENTRY_ROWS.get((cls_, row.keywords[0].arg))
+        if ctor is None:
+            fail(row, f"{cls_} wrapped as `{row.keywords[0].arg}`")
+        return f"Row.{ctor} {idt} {val}"
+
+    def ret_value(self, v) -> str:
+        if self.ret == "List Row × PLit":
+            if len(self.msg_params) != 1:
+                fail(v, "message parameter")
+            return f"({self.expr(v)}, {self.msg_params[0]}__)"
+        return super().ret_value(v)
 
     # -- attribute paths ----------------------------------------------------------------------
     def path_of(self, e) -> tuple[list[str], str] | None:
@@ -145,14 +199,34 @@ class EncMethod(Method):
         return super().is_boolish(e)
 
     def cond(self, e) -> str:
+        if isinstance(e, ast.Name) and self.local_type(RENAME.get(e.id, e.id)) == "Option String":
+            return f"(optStrTruthy {RENAME.get(e.id, e.id)})"
+        if isinstance(e, ast.Name) and self.local_type(RENAME.get(e.id, e.id)) == "Option Nat":
+            return f"(optNatTruthy {RENAME.get(e.id, e.id)})"
         p = self.path_of(e) if isinstance(e, ast.Attribute) else None
         if p is not None and p[1] == "Set":
             return f"(setTruthy {self.read_path(p[0])})"
-        return super().cond(e)
+        return Method.cond(self, e)
 
     def expr(self, e) -> str:
         if isinstance(e, ast.Name) and e.id in RENAME:
             return RENAME[e.id]
+        # options.SOME_STRING_CONSTANT
+        if isinstance(e, ast.Attribute) and isinstance(e.value, ast.Name) and e.value.id == "options":
+            from pyjelly import options as _o
+            v = getattr(_o, e.attr, None)
+            if isinstance(v, str):
+                return '"' + v + '"'
+            fail(e, "options attribute")
+        # <Option String local> != <string>
+        if isinstance(e, ast.Compare) and len(e.ops) == 1 and isinstance(e.ops[0], (ast.Eq, ast.NotEq)) and isinstance(e.left, ast.Name) \
+                and self.local_type(e.left.id) == "Option String":
+            sym = "==" if isinstance(e.ops[0], ast.Eq) else "!="
+            return f"({e.left.id} {sym} some {self.atom(e.comparators[0])})"
+        if isinstance(e, ast.Tuple) and not e.elts:
+            return "([] : List Row)"
+        if isinstance(e, ast.Tuple) and len(e.elts) == 1 and isinstance(e.elts[0], ast.Call) and ast.unparse(e.elts[0].func) == "jelly.RdfStreamRow":
+            return "[" + self.row_of(e.elts[0]) + "]"
         if isinstance(e, ast.List) and not e.elts:
             return "([] : List Row)"
         if isinstance(e, ast.Tuple):
@@ -163,7 +237,8 @@ class EncMethod(Method):
             if p is None or p[1] != "LookupEnc" or len(p[0]) != 1:
                 fail(e, "lookup method on something that is not one of the three tables")
             f = p[0][0]
-            return f"(← zoom (·.{f}) (fun s v => {{ s with {f} := v }}) (LookupEncoder.{e.func.attr} {self.args(e)}))"
+            args = " ".join(self.opt_value(a) for a in e.args)
+            return f"(← zoom (·.{f}) (fun s v => {{ s with {f} := v }}) (LookupEncoder.{e.func.attr} {args}))"
         if isinstance(e, ast.Attribute):
             p = self.path_of(e)
             if p is None:
@@ -187,6 +262,22 @@ class EncMethod(Method):
 
     # -- statements ---------------------------------------------------------------------------
     def stmt(self, ind: int, s: ast.stmt) -> None:
+        # <message parameter>.<field> = value   (the protobuf message being filled in: a local record)
+        if isinstance(s, ast.Assign) and len(s.targets) == 1 and isinstance(s.targets[0], ast.Attribute) and isinstance(s.targets[0].value, ast.Name) \
+                and s.targets[0].value.id in getattr(self, "msg_params", []):
+            m, fld = s.targets[0].value.id + "__", s.targets[0].attr
+            if fld == "lex":
+                self.emit(ind, f"{m} := {{ {m} with lex := {self.atom(s.value)} }}")
+            elif fld == "langtag":
+                self.emit(ind, f"{m} := PLit.setLang {m} {self.opt_value(s.value)}")
+            elif fld == "datatype":
+                self.emit(ind, f"{m} := PLit.setDt {m} {self.opt_value(s.value)}")
+            else:
+                fail(s, "field of the literal message")
+            return
+        if isinstance(s, ast.AnnAssign) and isinstance(s.target, ast.Name) and isinstance(s.value, ast.Tuple):
+            self.assign_local(ind, s.target.id, self.expr(s.value))
+            return
         # prefix, name = split_iri(iri_string)
         if isinstance(s, ast.Assign) and len(s.targets) == 1 and isinstance(s.targets[0], ast.Tuple) and len(s.targets[0].elts) == 2 \
                 and isinstance(s.value, ast.Call) and isinstance(s.value.func, ast.Name) and s.value.func.id == "split_iri":
@@ -202,7 +293,7 @@ class EncMethod(Method):
                 and isinstance(s.value.func, ast.Attribute) and isinstance(s.value.func.value, ast.Name) and s.value.func.value.id == "jelly" \
                 and s.value.func.attr in {k[0] for k in ENTRY_ROWS} and not s.value.args and sorted(k.arg for k in s.value.keywords) == ["id", "value"]:
             kw = {k.arg: k.value for k in s.value.keywords}
-            self.msgs[s.targets[0].id] = (s.value.func.attr, self.opt_value(kw["id"]), self.atom(kw["value"]))
+            self.msgs[s.targets[0].id] = (s.value.func.attr, self.opt_value(kw["id"]), self.opt_value(kw["value"]))
             return
         # rows.append(jelly.RdfStreamRow(<kind>=x_entry))
         if isinstance(s, ast.Expr) and isinstance(s.value, ast.Call) and isinstance(s.value.func, ast.Attribute) and s.value.func.attr == "append" \
@@ -244,6 +335,21 @@ class EncMethod(Method):
             self.set_path(ind, p[0], val)
             return
         super().stmt(ind, s)
+
+
+_orig_render = EncMethod.render
+
+
+def _render(self) -> str:
+    text = _orig_render(self)
+    if getattr(self, "msg_params", None):
+        head, rest = text.split("\n", 1)
+        decl = "".join(f"  let mut {m}__ : PLit := {{}}\n" for m in self.msg_params)
+        text = head + "\n" + decl + rest
+    return text
+
+
+EncMethod.render = _render
 
 
 def translate() -> str:
